@@ -9,6 +9,7 @@
   plan and cut `k`.
 -/
 import Dirk.Lemmas.ShortRules
+import Dirk.Props.KernelsEq
 
 namespace Dirk
 
@@ -42,5 +43,29 @@ theorem C06_unruled_is_prefix (s : Inst) (c ip : String) (atts : List (Addr × A
     (signAttsShort s c atts f sf k).1.db = (signAtts s c atts f sf).1.db :=
   ⟨signAttsShort_of_ge s c atts f sf k, multisignShort_of_ge s c ip gens sf lf k,
    signAttsShort_take s c atts f sf k, multisignShort_take s c ip gens sf lf k, signAttsShort_db s c atts f sf k⟩
+
+/-- **C06 (the signing loop is the source).** What the model does at each visited position of a batch — `signEvs` for
+    `SignBeaconAttestations`, `signGenerics` for `Multisign` — is, for every verdict list, fault plan and start index, the
+    indexed map of the position function translated on every run from the Go source of the final loop of those two
+    functions (verdict switch arm by arm, the error checks after it, the assignment of the signature); and that loop, in
+    the source as it is now, runs over `len(rulesResults)` positions of a result slice created UNKNOWN — the regenerated
+    fact behind the `take k` of Model/ShortRules.lean. -/
+theorem C06_kernel_is_source :
+    (∀ (sf : List Nat) (i : Nat) (evs : List (Bytes × AttData × Verdict)),
+      signEvs sf i evs = (evs.zipIdx i).map (fun e =>
+        (posOfGen (Gen.signLoopPosAttGen (verdictCode e.1.2.2) e.1.2.1.signingRoot.isNone false (sf.contains e.2))
+            e.1.2.1.signingRoot,
+         if (Gen.signLoopPosAttGen (verdictCode e.1.2.2) e.1.2.1.signingRoot.isNone false (sf.contains e.2)).2
+         then some (e.1.1, e.1.2.1) else none))) ∧
+    (∀ (adminIPs : List String) (ip : String) (sf : List Nat) (i : Nat) (keyed : List (Bytes × SignData)),
+      signGenerics adminIPs ip sf i keyed = (keyed.zipIdx i).map (fun e =>
+        (posOfGen (Gen.signLoopPosMultiGen (verdictCode (onSign adminIPs ip (e.1.2.domain.getD [])))
+            e.1.2.signingRoot.isNone (sf.contains e.2)) e.1.2.signingRoot,
+         if (Gen.signLoopPosMultiGen (verdictCode (onSign adminIPs ip (e.1.2.domain.getD [])))
+            e.1.2.signingRoot.isNone (sf.contains e.2)).2 then some (e.1.1, e.1.2) else none))) ∧
+    Gen.signLoopBoundAttGen = "len(rulesResults)" ∧ Gen.signLoopBoundMultiGen = "len(rulesResults)" ∧
+    Gen.coreResultZeroIsUnknownGen = true :=
+  ⟨signEvs_eq_gen_map, signGenerics_eq_gen_map, signLoopBound_is_rules_results.1, signLoopBound_is_rules_results.2.1,
+   by decide⟩
 
 end Dirk
